@@ -203,14 +203,30 @@ def traced():
 def choose(sym, n):
     """concrete value of a symbolic selector in range(n): the solver enumerates
     the feasible values, one path each (call while tracing)."""
+    r = n - 1
     for i in range(n - 1):
         if sym == i:
-            return i
-    return n - 1
+            r = i
+            break
+    _journal('sel', sym, r)
+    return r
 
 
 def flag(b):
-    return True if b else False
+    r = True if b else False
+    _journal('sel', b, r)
+    return r
+
+
+def _journal(kind, sym, val):
+    if SYMBOLIC:
+        from harness import keys as _k
+        if _k.NAMES:
+            from crosshair.tracers import NoTracing
+            with NoTracing():
+                nm = _k.name_of(sym)
+            if nm is not None:
+                _k.jlog(kind, nm, val)
 
 
 def peek(x):
